@@ -132,6 +132,9 @@ class Token:
         m = Chem.MolFromSmiles(self.dummy_smiles(), ps)
         if m is None:
             raise ValueError(f"token {self.text()} is not valid SMILES with dummies: {self.dummy_smiles()}")
+        # a hydrogen written explicitly on a heavy atom ("C([H])") is that atom's hydrogen, not an atom of its own (SMILES semantics);
+        # a lone [H] token, a hydrogen that carries the descriptor, and isotope-labelled hydrogens stay atoms
+        m = Chem.RemoveHs(m)
         n_d = len(self.descs)
         dummies = {}
         for a in m.GetAtoms():
